@@ -120,7 +120,12 @@ fn exec_bigcall(case: &Value) -> Value {
             verts.push(vertex([(cx + dx) * w, (cy + dy) * w, 2.0 * w - 3.0, w].into(), 99.0));
         }
     }
-    let all: Vec<Tri<usize>> = (0..nreal + npad).map(|t| Tri([3 * t, 3 * t + 1, 3 * t + 2])).collect();
+    let mut all: Vec<Tri<usize>> = (0..nreal + npad).map(|t| Tri([3 * t, 3 * t + 1, 3 * t + 2])).collect();
+    let real: Vec<Tri<usize>> = all[..nreal].to_vec();
+    // "last": the real triangles are submitted after the padding (their positions in the call are beyond 2^16)
+    if case.get("last").and_then(|v| v.as_i64()).unwrap_or(0) == 1 {
+        all.rotate_left(nreal);
+    }
     let mut planes = vec![];
     let mut panic = 0;
     for (which, sort) in [(0usize, 0i64), (1, 0), (1, 1), (1, 2)] {
@@ -129,7 +134,7 @@ fn exec_bigcall(case: &Value) -> Value {
             depth_buf: Buf2::new_from((bw, bh), std::iter::repeat(0.0f32)),
         };
         let ctx = mk_ctx(&json!({"cull": 0, "sort": sort, "test": 1, "cw": 1, "dw": 1}), Stats::new());
-        let faces = if which == 0 { &all[..nreal] } else { &all[..] };
+        let faces = if which == 0 { &real[..] } else { &all[..] };
         if guard(|| render(faces, &verts, &shader(false), (), to_screen, &mut fb, &ctx)).is_none() {
             panic = 1;
         }
@@ -155,13 +160,18 @@ pub fn exec(case: &Value) -> Value {
     let nt = tris_in.len();
     let np = (bw * bh) as usize;
     let scene_scale = 2f32.powi(case.get("sc").and_then(|v| v.as_i64()).unwrap_or(0) as i32);
+    // colour id per triangle (the attribute its vertices carry); by default all different, "cid" lets some coincide
+    let cid: Vec<usize> = match case.get("cid").and_then(|v| v.as_array()) {
+        Some(a) => a.iter().map(|x| x.as_u64().unwrap() as usize).collect(),
+        None => (0..nt).map(|t| t + 1).collect(),
+    };
     // vertices: three per triangle, attribute = triangle id (1-based), plus unused extras
     let mut verts: Vec<Vtx> = vec![];
     for (t, tri) in tris_in.iter().enumerate() {
         for v in tri.as_array().unwrap() {
             // the whole scene at a homogeneous scale 2^sc (exact): the same image, reciprocal depths
             // 2^-sc times as large - near-equal depths of a far-away scene when sc is large
-            let mut lv = lat_vertex(v, (t + 1) as f32);
+            let mut lv = lat_vertex(v, cid[t] as f32);
             lv.pos = lv.pos * scene_scale;
             verts.push(lv);
         }
@@ -208,7 +218,7 @@ pub fn exec(case: &Value) -> Value {
                 if c == C0 {
                     -1
                 } else {
-                    if !(z >= 0.0) || c != rgba((t + 1) as u8, 0x40, 0x80, 0).to_argb_u32() {
+                    if !(z >= 0.0) || c != rgba(cid[t] as u8, 0x40, 0x80, 0).to_argb_u32() {
                         ok = false; // NaN / negative depth or a corrupted attribute: C05's business
                     }
                     z.to_bits() as i64 & 0x7FFF_FFFF
@@ -249,7 +259,7 @@ pub fn exec(case: &Value) -> Value {
         .collect();
     let vsign = if (vpn(2) > vpn(0)) == (vpn(3) > vpn(1)) { 1 } else { -1 };
     let dpix: Vec<u8> = (0..np).map(|p| (((p as u32 % bw) + (p as u32 / bw)) % 3 == 0) as u8).collect();
-    let col: Vec<u32> = (0..nt).map(|t| rgba((t + 1) as u8, 0x40, 0x80, 0).to_argb_u32()).collect();
+    let col: Vec<u32> = (0..nt).map(|t| rgba(cid[t] as u8, 0x40, 0x80, 0).to_argb_u32()).collect();
     let scene = json!({"np": np, "fp": fp, "col": col, "nfr": nfr, "npc": npc, "ndeg": ndeg, "tv": tv, "vsign": vsign, "dpix": dpix, "cover": covers});
 
     // ---- histories
@@ -428,12 +438,12 @@ pub fn gen(args: &Args, out: &mut dyn Write) {
     let thorough = args.tier == "thorough";
     if args.rest.first().map(|s| s.as_str()) == Some("bigcall") {
         let mut rng = Rng::new(args.seed ^ 0xB16C);
-        for i in 0..(if thorough { 12 } else { 3 }) {
+        for i in 0..(if thorough { 16 } else { 4 }) {
             let (bw, bh) = (rng.range(6, 12), rng.range(5, 9));
             let tris: Vec<[[i64; 4]; 3]> = (0..3).map(|_| gen_tri(&mut rng, true, 5, 11)).collect();
             // call sizes around the 16-bit boundary
             let npad = [65_533i64, 65_540, 70_000, 131_080][i % 4];
-            writeln!(out, "{}", json!({"k": format!("B{}-{}", args.seed, i), "op": "bigcall", "bw": bw, "bh": bh, "tris": tris, "npad": npad})).unwrap();
+            writeln!(out, "{}", json!({"k": format!("B{}-{}", args.seed, i), "op": "bigcall", "bw": bw, "bh": bh, "tris": tris, "npad": npad, "last": (i / 2) % 2})).unwrap();
         }
         return;
     }
@@ -519,6 +529,11 @@ pub fn gen(args: &Args, out: &mut dyn Write) {
                     let mut ctx = confl.clone();
                     ctx["sort"] = json!(rng.below(3));
                     ctx["disc"] = json!(disc);
+                    // every other scene with face culling on (the same for the whole scene): the faces
+                    // culled drop out of every history alike
+                    if i % 2 == 1 {
+                        ctx["cull"] = json!(1 + (i / 2) % 2);
+                    }
                     let need = 3 * *ord.iter().max().unwrap();
                     calls.push(json!({"ctx": ctx, "ord": ord, "nv": need.max(all_nv.min(need + 3 * rng.below(2) as usize)),
                                       "via": if rng.chance(1, 4) { "batch" } else { "render" }, "win": hwin}));
@@ -558,7 +573,9 @@ pub fn gen(args: &Args, out: &mut dyn Write) {
             hists.push(json!(calls));
         }
         let sc = [0i64, 0, 16, -12][i % 4];
+        // every third scene: some triangles return the SAME colour (the twin always has its own)
+        let cid: Vec<usize> = (0..ntot).map(|t| if i % 3 == 1 && t < nt { 1 + t / 2 } else { t + 1 }).collect();
         writeln!(out, "{}", json!({"k": format!("s{}-{}", args.seed, i), "bw": bw, "bh": bh, "vp": vp,
-            "tris": tris, "hists": hists, "sc": sc})).unwrap();
+            "tris": tris, "hists": hists, "sc": sc, "cid": cid})).unwrap();
     }
 }
